@@ -49,19 +49,19 @@ META = {
              "observed, an exception was raised or an object died."),
     "phases": [{"name": "main", "flavour": "P", "shards": 16}],
     "gates": {
-        "quick": {"evaluations": 60000, "probe_checks": 50000, "adds_ok": 2000, "removes_ok": 1500,
-                  "failed_adds_checked": 600, "failed_removes_checked": 300,
-                  "failpos_first_path_held": 100, "failpos_sibling_cases": 100,
-                  "zero_census_checks": 400, "calls_observed": 8000, "ui_queued_calls": 100,
-                  "weak_deaths_checked": 100, "gc_threshold_cases": 20, "thread_stress_runs": 1,
-                  "mutations": 1000, "count_ge2_probes": 500},
-        "thorough": {"evaluations": 2000000, "probe_checks": 1500000, "adds_ok": 60000,
-                     "removes_ok": 45000, "failed_adds_checked": 15000,
-                     "failed_removes_checked": 8000, "failpos_first_path_held": 2500,
-                     "failpos_sibling_cases": 2500, "zero_census_checks": 12000,
-                     "calls_observed": 250000, "ui_queued_calls": 3000,
-                     "weak_deaths_checked": 2500, "gc_threshold_cases": 500,
-                     "thread_stress_runs": 8, "mutations": 30000, "count_ge2_probes": 15000},
+        "quick": {"evaluations": 200000, "probe_checks": 200000, "adds_ok": 2500, "removes_ok": 2000,
+                  "failed_adds_checked": 1000, "failed_adds_held_first_path": 500,
+                  "failed_removes_checked": 1000, "failpos_cases": 500, "failpos_sibling_cases": 250,
+                  "zero_census_checks": 2000, "calls_observed": 8000, "ui_queued_calls": 300,
+                  "weak_deaths_checked": 400, "gc_threshold_cases": 120, "thread_stress_runs": 1,
+                  "mutations": 1200, "count_ge2_probes": 2000},
+        "thorough": {"evaluations": 5000000, "probe_checks": 5000000, "adds_ok": 80000,
+                     "removes_ok": 80000, "failed_adds_checked": 20000,
+                     "failed_adds_held_first_path": 10000, "failed_removes_checked": 40000,
+                     "failpos_cases": 8000, "failpos_sibling_cases": 4000, "zero_census_checks": 60000,
+                     "calls_observed": 300000, "ui_queued_calls": 10000,
+                     "weak_deaths_checked": 10000, "gc_threshold_cases": 2500,
+                     "thread_stress_runs": 8, "mutations": 40000, "count_ge2_probes": 80000},
     },
     "exhaustive_parts": ("failure position: every node index of the walk for trees of depth 1..4 x "
                          "fan-out 1..3 (quick: depth 4 only with fan-out <= 2); multi-graph "
@@ -193,7 +193,7 @@ def canon(r):
     return (r[0], r[1], r[2], r[3], frozenset(canon(c) for c in r[4]))
 
 
-def textable(x, leaf=True):
+def textable(x):
     if x.kind in "LDS":
         return False
     if x.kind == "t" and x.optional:
@@ -408,6 +408,31 @@ def census(objs):
     return c
 
 
+def describe_objs(objs, cap=45):
+    """Current links of the pool, for witnesses (serial numbers only)."""
+    def ref(v):
+        return None if v is None else "%s#%d" % (type(v).__name__, sn_of(v))
+    out = {}
+    for o in objs[:cap]:
+        d = o.__dict__
+        if type(o) is Leaf:
+            out["Leaf#%d" % sn_of(o)] = "no value / link traits"
+            continue
+        e = {}
+        for n in ("child", "other_child"):
+            if d.get(n) is not None:
+                e[n] = ref(d[n])
+        for n in ("children", "cset", "bag"):
+            v = d.get(n)
+            if isinstance(v, (list, set)) and v:
+                e[n] = ("plain list " if type(v) is list else "") + repr(sorted(ref(x) for x in v)
+                                                                         if isinstance(v, set) else [ref(x) for x in v])
+        if d.get("cmap"):
+            e["cmap"] = {k: ref(x) for k, x in d["cmap"].items()}
+        out["Node#%d" % sn_of(o)] = e
+    return out
+
+
 def census_diff(a, b):
     out = []
     for k in sorted(set(a) | set(b), key=repr):
@@ -466,7 +491,10 @@ class Channels:
         n = 0
         while self.queue:
             handler, args, kw = self.queue.pop(0)
-            handler(*args, **kw)
+            try:
+                handler(*args, **kw)
+            except Exception as e:           # noqa: BLE001 - what a UI event loop would see
+                self.captured.append(("ui-queue", type(e).__name__, str(e)[:200]))
             n += 1
         return n
 
@@ -486,11 +514,14 @@ class Worker:
             action = self.todo.get()
             if action is None:
                 return
+            res = None
             try:
                 action()
-                self.done.put(None)
             except BaseException as e:       # noqa: BLE001 - handed back to the caller
-                self.done.put(e)
+                res = e
+            action = None                     # this frame must not keep pool objects alive
+            self.done.put(res)
+            res = None
 
     def call(self, action):
         if self.thread is None:
@@ -569,6 +600,8 @@ class Session:
                             for (ri, hi, k, d), n in self.counts.items() if n]}
         w.update(self.extra)
         w.update(kw)
+        w["objects_now"] = describe_objs(self.objs)
+        w["targets"] = ["Node#%d" % sn_of(r) for r in self.roots]
         return w
 
     def fail(self, key, msg, **kw):
@@ -639,6 +672,7 @@ class Session:
                          census_diff(c0, c1)[:6]),
                       census_diff=census_diff(c0, c1)[:12], failure_class=cls)
         self.after_failed = True
+        ctx.count("failed_adds_held_first_path" if not (sibling or parallel) else "failed_adds_held_other")
         return False
 
     def remove(self, ri, hi, entry, disp):
@@ -730,10 +764,13 @@ class Session:
             exp[hi][off + 1] += m
         return exp
 
-    def fire(self, kind, observables, action, what, via_thread=False):
+    def fire(self, kind, observables, action, what, via_thread=False, thread_rng=None):
         ctx = self.ctx
         rec = self.rec
         exp = self.expected(observables)
+        if thread_rng is not None:
+            # changes made from a worker thread: often where a 'ui' registration listens
+            via_thread = thread_rng.random() < (0.35 if any(e[3] for e in exp) else 0.02)
         b = list(rec.calls)
         bw = list(rec.worker_calls)
         raised = None
@@ -796,15 +833,14 @@ class Session:
                     tuple((min(e[0], 2), min(e[2], 2), min(e[4], 3)) for e in exp))
         self.check_channels(what)
 
-    def probe_all(self, rng=None, thread_fraction=0.0, objs=None):
+    def probe_all(self, rng=None, objs=None):
         for o in (self.objs if objs is None else objs):
             for name in LEAF_PROBES[type(o)]:
-                via = rng is not None and thread_fraction and rng.random() < thread_fraction
 
                 def action(o=o, name=name):
                     setattr(o, name, getattr(o, name) + 1)
                 self.fire("leaf", [("t", sn_of(o), name)], action,
-                          "#%d.%s += 1" % (sn_of(o), name), via_thread=via)
+                          "#%d.%s += 1" % (sn_of(o), name), thread_rng=rng)
 
 
 # ---------------------------------------------------------------------------
@@ -1004,7 +1040,6 @@ def main_history(ctx, h, OK, BAD):
     S.set_base()
     nsteps = 15
     mine = rng.sample(OK, 3) + [rng.choice(OK[:12])]
-    thread_fraction = 0.04
     dropped_root = dropped_owner = False
     for step in range(nsteps):
         r = rng.random()
@@ -1013,7 +1048,14 @@ def main_history(ctx, h, OK, BAD):
         hi = rng.randrange(3)
         disp = "same" if rng.random() < 0.6 else "ui"
         if r < 0.34:
-            S.add(ri, hi, rng.choice(mine), disp)
+            live = [k for k, n in S.counts.items() if n > 0]
+            e = rng.choice(mine)
+            if live and rng.random() < 0.4:   # the same handler/expression/dispatch once more
+                kri, khi, gk, kd = rng.choice(live)
+                cands = [c for c in mine if any(g.key == gk for g in c.graphs)]
+                if cands:
+                    ri, hi, disp, e = kri, khi, kd, rng.choice(cands)
+            S.add(ri, hi, e, disp)
         elif r < 0.44:
             # a failing registration (only when it fails *now* and has no healthy
             # sibling subtree / parallel graph: those are the enumeration strata)
@@ -1048,8 +1090,7 @@ def main_history(ctx, h, OK, BAD):
                 continue
             desc, obs, action = m
             S.trace.append(("mutate", desc))
-            via = rng.random() < 0.1
-            S.fire("mutation", obs, action, desc, via_thread=via)
+            S.fire("mutation", obs, action, desc, thread_rng=rng)
             m = action = None                 # the closures hold pool objects
             S.invalidate()
             ctx.count("mutations")
@@ -1105,7 +1146,7 @@ def main_history(ctx, h, OK, BAD):
                 S.tainted = True
         else:
             continue
-        S.probe_all(rng, thread_fraction)
+        S.probe_all(rng)
         if S.total() == 0:
             S.zero_check("step %d" % step)
     # unwind: every outstanding registration comes off, then one more must fail
@@ -1117,7 +1158,8 @@ def main_history(ctx, h, OK, BAD):
         ri, hi, gk, disp = rng.choice(last)
         S.remove(ri, hi, Entry("once-more", [S.graphs[gk]], form="expr"), disp)
         S.probe_all(objs=S.roots)
-    return S
+    if h < 2 * ctx.nshards:
+        ctx.sample({"stratum": "main", "history": S.trace[:8]})
 
 
 # ---------------------------------------------------------------------------
@@ -1204,6 +1246,10 @@ def failpos_case(ctx, cid, D, F, links, pos, variant):
     if bad_path is not None and len(bad_path) < D and links[len(bad_path)] == "bag" and rng.random() < 0.6:
         bad_kind = "plain-list"
     root, objs = build_tree(D, F, links, bad_path, bad_kind)
+    spare = Node(sn=len(objs))                # linked under the root later (structural probe)
+    spare.children, spare.cmap, spare.cset, spare.child, spare.other_child, spare.bag
+    spare.value = spare.other = spare.tagged = 0
+    objs.append(spare)
     notifies = [rng.random() < 0.6 for _ in range(D)]
     explicit = [rng.random() < 0.4 for _ in range(D)]
     form = rng.choice(["text", "expr", "exprlist", "textlist"])
@@ -1242,11 +1288,33 @@ def failpos_case(ctx, cid, D, F, links, pos, variant):
         ctx.count("failpos_control_registered")
     if rng.random() < 0.3:
         S.add(0, hi, full, disp)              # again: still atomic / counted
-    S.probe_all(rng, 0.02)
-    # a structural probe on the root container
+    S.probe_all(rng)
+    # a structural probe under the root: maintainers left behind would hook the new object or raise
+    link = links[0]
+    rs = sn_of(root)
+    if True:                                  # the root itself is never the bad object
+        if link == "children":
+            obs, act = [("c", rs, "children")], (lambda: root.children.append(spare))
+        elif link == "cmap":
+            obs, act = [("c", rs, "cmap")], (lambda: root.cmap.__setitem__("spare", spare))
+        elif link == "cset":
+            obs, act = [("c", rs, "cset")], (lambda: root.cset.add(spare))
+        elif link == "bag":
+            obs, act = [("c", rs, "bag")], (lambda: root.bag.append(spare))
+        else:
+            obs, act = [("t", rs, "child")], (lambda: setattr(root, "child", spare))
+        S.trace.append(("mutate", "link the spare node under the root through %s" % link))
+        S.fire("mutation", obs, act, "root.%s gets a new node" % link)
+        S.invalidate()
+        ctx.count("mutations")
+        late = [gk for (kri, khi, gk, kd), n in S.counts.items() if n > 0
+                and not S.analysis(kri, S.graphs[gk]).ok]
+        if late:
+            ctx.count("histories_ended_by_late_failure")
+            return
+        S.probe_all()
     S.unwind(rng)
     S.probe_all()
-    return S
 
 
 def failpos_configs(ctx):
@@ -1443,33 +1511,42 @@ def weak_case(ctx, i):
     nreg = rng.randint(1, 3)
     regs = []
     use_method = mode in ("owner", "both", "after-failed-add", "after-removal") or rng.random() < 0.5
-    for _ in range(nreg):
-        e = rng.choice(WEAK_EXPRS)
-        d = rng.choice(["same", "ui"])
-        if mode == "self-method":
-            h = root.on_self
-        elif use_method:
-            h = owner.meth
-        else:
-            h = weak_fn
-        root.observe(h, e, dispatch=d)
-        regs.append((e, d))
-        if rng.random() < 0.3:
+    h = None
+    try:
+        for _ in range(nreg):
+            e = rng.choice(WEAK_EXPRS)
+            d = rng.choice(["same", "ui"])
+            if mode == "self-method":
+                h = root.on_self
+            elif use_method:
+                h = owner.meth
+            else:
+                h = weak_fn
             root.observe(h, e, dispatch=d)
             regs.append((e, d))
-    h = None                                  # a bound method keeps its owner alive
-    if mode == "after-failed-add":
-        for _ in range(rng.randint(1, 2)):
-            try:
-                root.observe(owner.meth, rng.choice(WEAK_BAD), dispatch=rng.choice(["same", "ui"]))
-            except ValueError:
-                pass
-    if mode == "after-removal":
-        for e, d in regs:
-            root.observe(owner.meth, e, dispatch=d, remove=True)
-    # the registrations work before anything dies (otherwise silence later means nothing)
-    kids[0].value += 1
-    root.value += 1
+            if rng.random() < 0.3:
+                root.observe(h, e, dispatch=d)
+                regs.append((e, d))
+        h = None                              # a bound method keeps its owner alive
+        if mode == "after-failed-add":
+            for _ in range(rng.randint(1, 2)):
+                try:
+                    root.observe(owner.meth, rng.choice(WEAK_BAD), dispatch=rng.choice(["same", "ui"]))
+                except ValueError:
+                    pass
+        if mode == "after-removal":
+            for e, d in regs:
+                root.observe(owner.meth, e, dispatch=d, remove=True)
+        # the registrations work before anything dies (otherwise silence later means nothing)
+        kids[0].value += 1
+        root.value += 1
+    except Exception as exc:                  # noqa: BLE001
+        h = None
+        ctx.ev()
+        ctx.violation("weak/setup-raised/%s" % type(exc).__name__,
+                      "registering / removing healthy expressions on a dedicated object raised %r "
+                      "(mode %s, registrations so far %r)" % (exc, mode, regs), {"mode": mode, "registrations": regs})
+        return
     alive_calls = sum(WEAK_HITS.values())
     WEAK_HITS.clear()
     desc = {"mode": mode, "registrations": regs, "handler": "method" if use_method else "function"}
@@ -1528,13 +1605,31 @@ def weak_case(ctx, i):
 # ---------------------------------------------------------------------------
 # thread stress (final-state oracle only)
 # ---------------------------------------------------------------------------
+def _warm(event):
+    pass
+
+
 def thread_stress(ctx, i):
-    rng = ctx.rng("T", i)
+    _thread_stress(ctx, i, shared=False)
+    # calibration of the schedule generator only, never a verdict: with ONE handler shared by the
+    # four threads the unlocked check-then-act sequences of add_to/remove_from do interleave
+    _thread_stress(ctx, i, shared=True)
+
+
+def _thread_stress(ctx, i, shared):
+    rng = ctx.rng("T", i, shared)
     objs, layers, rank = small_graph(rng)
-    base = census(objs)
     roots = layers[0]
     exprs = ["value", "child.value", "children.items.value", "cmap.items.value",
              "[child,children.items].value", "child.child.value", "*"]
+    # warm-up in the main thread: every instance trait the walks create exists before the threads
+    # start (HasTraits.traits() iterates the instance-trait dict, which is not safe against a
+    # concurrent first-time _trait(name, 2); that is not what this stress is about)
+    for r_ in roots:
+        for e_ in exprs:
+            r_.observe(_warm, e_)
+            r_.observe(_warm, e_, remove=True)
+    base = census(objs)
     hits = [0] * 4
     errors = []
     nops = ctx.scale(300, 1500)
@@ -1545,6 +1640,9 @@ def thread_stress(ctx, i):
             hits[n] += 1
         return handler
     handlers = [mk(n) for n in range(4)]
+    if shared:
+        handlers = [handlers[0]] * 4
+        nops = min(nops, 400)
     seeds = [rng.getrandbits(32) for _ in range(4)]
     stop = []
 
@@ -1591,6 +1689,13 @@ def thread_stress(ctx, i):
         ch.join()
     finally:
         sys.setswitchinterval(old)
+    if shared:
+        del CH.queue[:]
+        anomaly = bool(errors or CH.captured or census(objs) != base)
+        del CH.captured[:]
+        ctx.count("thread_shared_handler_calibration_runs")
+        ctx.count("thread_shared_handler_anomalies", 1 if anomaly else 0)
+        return
     ctx.count("ui_queued_in_stress", len(CH.queue))
     CH.drain()
     ctx.ev()
@@ -1615,13 +1720,67 @@ def thread_stress(ctx, i):
                       "differs: %r" % census_diff(base, c)[:6], desc)
         return
     before = sum(hits)
-    for o in objs:
-        o.value += 1
-    CH.drain()
+    try:
+        for o in objs:
+            o.value += 1
+        CH.drain()
+    except Exception as e:                   # noqa: BLE001
+        ctx.violation("threads/change-raised-after-unwind/%s" % type(e).__name__,
+                      "a change after every thread unwound raised %r" % e, desc)
+        return
     if sum(hits) != before:
         ctx.violation("threads/call-after-unwind", "handler called after every thread unwound", desc)
         return
     ctx.sig("threads", min(sum(hits), 1))
+
+
+# ---------------------------------------------------------------------------
+# the statement's literal instances (small, exhaustive) and the canonical failing shapes
+# ---------------------------------------------------------------------------
+def literal_counted(ctx, n, hi, disp, entry):
+    """Register the same handler/expression/dispatch n times, unregister n times, once more."""
+    rng = ctx.rng("K", n, hi, disp, entry.name)
+    objs, layers, rank = small_graph(rng)
+    S = Session(ctx, "literal", objs, layers[0])
+    S.set_base()
+    for _ in range(n):
+        S.add(0, hi, entry, disp)
+        S.probe_all(rng)
+    for _ in range(n):
+        S.probe_all()
+        S.remove(0, hi, entry, disp)
+    S.probe_all()
+    S.remove(0, hi, entry, disp)              # one further unregistration
+    S.probe_all()
+    ctx.count("literal_counted_cases")
+
+
+def canonical_failing(ctx, which):
+    rng = ctx.rng("Kf", which)
+    if which == "sibling":
+        root = Node(sn=0)
+        good, bad = Node(sn=1), Leaf(sn=2)
+        for o in (root, good):
+            o.children, o.cmap, o.cset, o.child, o.other_child, o.bag
+            o.value = o.other = o.tagged = 0
+        bad.other = 0
+        root.children = [good, bad]
+        S = Session(ctx, "canonical", [root, good, bad], [root])
+        S.set_base()
+        S.add(0, 0, Entry("a", [t("children", items(V, notify=False), notify=False)]), "same")
+    else:
+        objs, layers, rank = small_graph(rng)
+        S = Session(ctx, "canonical", objs, layers[0])
+        S.set_base()
+        if which == "parallel-add":
+            S.add(0, 0, Entry("b", [t("value"), t("nope")]), "same")
+        else:
+            S.add(0, 0, Entry("pre", [t("child", V)]), "same")
+            S.remove(0, 0, Entry("c", [t("child", V), t("children", items(V))],
+                                 text="[child,children.items].value"), "same")
+    S.probe_all()
+    S.unwind(rng)
+    S.probe_all()
 
 
 # ---------------------------------------------------------------------------
@@ -1660,6 +1819,31 @@ def run(ctx):
 
 def _run(ctx):
     OK, BAD = catalogue()
+    # ---- (0) literal instances of the statement ----------------------------------
+    for which in ("sibling", "parallel-add", "parallel-remove"):
+        if ctx.mine(0) and ctx.begin("K:%s" % which):
+            try:
+                guarded(ctx, canonical_failing, which)
+            finally:
+                ctx.end()
+    lit = [e for e in OK if e.name in ("value", "child.value", "children.items.value", "child:value",
+                                       "cmap.items.value", "[child,children.items].value", "*",
+                                       "x:children.list.value", "value, value")]
+    for k, (n, hi, disp) in enumerate(itertools.product((1, 2, 3, 4), range(3), ("same", "ui"))):
+        if not ctx.mine(k):
+            continue
+        if not ctx.begin("K:%d:%d:%s" % (n, hi, disp)):
+            continue
+        try:
+            for e in lit:
+                guarded(ctx, literal_counted, n, hi, disp, e, gc_hard=(n == 3 and hi == 1))
+            if n == 2 and hi == 1:
+                ctx.sample({"stratum": "literal", "handler": HANDLER_KINDS[hi], "dispatch": disp,
+                            "expression": "children.items.value",
+                            "history": ["observe x2", "probe every leaf trait after each", "remove x2",
+                                        "census == initial", "remove once more -> NotifierNotFound"]})
+        finally:
+            ctx.end()
     # ---- (1) random histories ------------------------------------------------
     nh = ctx.scale(1600, 60000)
     for h in range(nh):
